@@ -16,7 +16,10 @@ from visions.types.date_time import DateTime
 def datetime_is_date(series: pd.Series, state: dict) -> bool:
     dtseries = series.dt.time
     value = time(0, 0)
-    return all(v == value for v in dtseries)
+    # `.dt.time` has microsecond resolution: a nanosecond remainder is no midnight either
+    return all(v == value for v in dtseries) and bool(
+        (series.dt.nanosecond == 0).all()
+    )
 
 
 @Date.register_transformer(DateTime, pd.Series)
